@@ -24,6 +24,8 @@ import (
 type c10Case struct {
 	Parent bool `json:"parent"`
 	Ops    []op `json:"ops"`
+	// Hooks installs the cron state hooks (as sys.System does).
+	Hooks bool `json:"hooks,omitempty"`
 }
 
 var c10Whens = []M{{"a": "x"}, {"a": "?v"}, {"b": "y"}, {"a": "x", "b": "?w"}}
@@ -81,6 +83,7 @@ func genC10(t *rapid.T) c10Case {
 			}
 		}
 	}
+	c.Hooks = rapid.IntRange(0, 2).Draw(t, "hooks") == 0
 	return c
 }
 
@@ -92,6 +95,9 @@ func runC10(c c10Case) *vlib.Outcome {
 	o := &vlib.Outcome{}
 	for _, kind := range []string{"indexed", "linear"} {
 		w := newWorld(kind, nil, o)
+		if c.Hooks {
+			w.withCronHooks()
+		}
 		w.open("L")
 		if c.Parent {
 			w.open("P")
